@@ -40,6 +40,10 @@ impl Future for Suspend {
     }
 }
 
+/// While false, a call whose argument contains the text "park" keeps yielding to the runtime (tokio probes only): an
+/// evaluation can be held suspended for as long as a scenario wants.
+pub static PARK_RELEASE: std::sync::atomic::AtomicBool = std::sync::atomic::AtomicBool::new(true);
+
 pub struct Probe {
     pub name: &'static str,
     pub spec: FnSpec,
@@ -65,6 +69,11 @@ impl UserFunction for Probe {
         if self.tokio_yield {
             for _ in 0..self.suspend {
                 tokio::task::yield_now().await;
+            }
+            if key.1.contains("\"park\"") {
+                while !PARK_RELEASE.load(std::sync::atomic::Ordering::SeqCst) {
+                    tokio::task::yield_now().await;
+                }
             }
         } else {
             Suspend(self.suspend).await;
@@ -105,6 +114,31 @@ impl UserFunction for DefaultCacheabilityProbe {
     }
 }
 
+/// Two user functions without any state (zero-sized types, as in the crate's own examples): registered for the names
+/// "za" / "zb"; they answer like a probe but keep no log (a boxed zero-sized value owns no allocation of its own).
+pub struct ZstA;
+pub struct ZstB;
+
+#[async_trait]
+impl UserFunction for ZstA {
+    async fn call(&self, param: Value) -> FunctionResult {
+        Ok(probe_result("za", &param))
+    }
+    fn name(&self) -> &'static str {
+        "za"
+    }
+}
+
+#[async_trait]
+impl UserFunction for ZstB {
+    async fn call(&self, param: Value) -> FunctionResult {
+        Ok(probe_result("zb", &param))
+    }
+    fn name(&self) -> &'static str {
+        "zb"
+    }
+}
+
 /// Everything needed to build one ruleset under test.
 #[derive(Clone, Debug, Default)]
 pub struct SetSpec {
@@ -139,6 +173,14 @@ pub fn build(spec: &SetSpec, tokio_yield: bool) -> Built {
         }
     }
     for (name, fs) in &spec.fns {
+        if name == "za" {
+            b = b.with_function(ZstA).expect("za");
+            continue;
+        }
+        if name == "zb" {
+            b = b.with_functions(vec![Box::new(ZstB) as Box<dyn UserFunction + Send + Sync>]).expect("zb");
+            continue;
+        }
         let p = Probe {
             name: intern(name),
             spec: fs.clone(),
